@@ -32,17 +32,35 @@ Theorem C10_get_changes_impl_eq_spec : forall appl have, Built appl -> ActorChai
   get_changes_impl appl have = get_changes appl have.
 Proof. exact get_changes_impl_eq_spec. Qed.
 
-(* ... and NOT in general: the library itself can create a history without that chain (a
-   change, an empty change, then a transaction isolated at the first change — all by one actor:
-   isolate_actor accepts the actor because an empty change has no op of its own).  In that
-   reachable state get_changes([3]) as computed by the code omits change 2, which is not an
-   ancestor of 3.  Reported as a finding (the implementation reproduces it). *)
-Theorem C10_get_changes_impl_refuted :
-  exists steps m c, run_fresh m_empty steps /\ m_run m_empty steps = Ok m /\
-    In c (applied (m_doc m)) /\ ~ In c (ancestors (applied (m_doc m)) [3]) /\
-    In c (get_changes (applied (m_doc m)) [3]) /\
-    ~ In c (get_changes_impl (applied (m_doc m)) [3]).
-Proof. exact get_changes_impl_refuted. Qed.
+(* ... which holds in every state reached from the empty document by local commits (plain,
+   empty, isolated: since the repair of isolate_actor an isolated transaction is written by an
+   actor whose latest change is an ancestor of the isolation heads) and by deliveries of changes
+   that continue their actor's chain ([run_chain_ok], see C04_chain_invariant) *)
+Theorem C10_get_changes_impl_reachable : forall steps m have,
+  run_fresh m_empty steps -> run_chain_ok m_empty steps -> m_run m_empty steps = Ok m ->
+  get_changes_impl (applied (m_doc m)) have = get_changes (applied (m_doc m)) have.
+Proof. exact get_changes_impl_reachable. Qed.
+
+(* non-vacuity of the hypotheses: a run with a delivery and all three kinds of commit *)
+Example C10_reachable_nonvacuous :
+  let c1 := mkChange 11 [1] 1 1 [] [dummy_op] in
+  let steps := [ SCommit (mkReq [2] None [dummy_op] false 21);
+                 SReceive [c1];
+                 SCommit (mkReq [2] None [] true 22);
+                 SCommit (mkReq [2] (Some [21]) [dummy_op] false 23) ] in
+  run_fresh m_empty steps /\ run_chain_ok m_empty steps /\ exists m, m_run m_empty steps = Ok m.
+Proof.
+  split; [cbn; repeat split; vm_compute; intuition discriminate|]. split; [|eexists; vm_compute; reflexivity].
+  cbn [run_chain_ok step_chain_ok m_step bind]. split; [exact I|].
+  destruct (m_commit m_empty _) as [[m1 o1]| |] eqn:E1; vm_compute in E1; inversion E1; subst; clear E1.
+  cbn [bind]. split.
+  - intros pre c post. vm_compute. intros H.
+    destruct pre as [|x pre]; [|destruct pre; discriminate]. inversion H; subst. split; [vm_compute; reflexivity|].
+    intros p. vm_compute. discriminate.
+  - cbn [m_step bind]. repeat (match goal with |- True /\ _ => split; [exact I|] end;
+      match goal with |- context [m_commit ?m ?r] => destruct (m_commit m r) as [[? ?]| |] eqn:?E; vm_compute in E; inversion E; subst; clear E; cbn [bind m_step] end).
+    exact I.
+Qed.
 
 (* non-vacuity: a two-branch history; asking with one branch returns the other *)
 Example C10_nonvacuous :
